@@ -101,6 +101,10 @@ def gen(rng, tier, quarantine=()):
         if "no-completion-raises" not in quarantine and rng.random() < 0.12 and sels[0].get("focus") and not op.get("raw") and op["kind"] == "probe":
             ops.append({"op": "stage", "id": pid, "kind": rng.choice(["min", "max", "last"]),
                         "cap": sels[0]["focus"]["as"], "bare": rng.random() < 0.7})
+        if "no-failing-subscriber" not in quarantine and rng.random() < (0.3 if op.get("raw") else 0.1) and op["kind"] == "probe":
+            # a subscriber of the probe itself fails on its k-th event / record (for a total probe:
+            # while the outermost call is being wound up): the context must still be put back
+            ops.append({"op": "stage", "id": pid, "kind": "whole", "cap": None, "raises": rng.choice([1, 1, 2, 3])})
     if "no-failed-activation" not in quarantine and rng.random() < 0.25:
         # a probe whose second selector is refused at activation: the failed
         # activation must leave nothing behind (the first selector's tooling!)
